@@ -2799,6 +2799,122 @@ impl<W: AsRef<[u64]>, S: SelectSupport> BalancedParens<W, S> {
     }
 }
 
+/// Verification hooks (feature `verif-hooks`): read-only access to the private
+/// byte tables, word kernels, index builders and built index arrays. Nothing
+/// here changes behaviour; with the feature off this module is not compiled.
+#[cfg(feature = "verif-hooks")]
+#[doc(hidden)]
+#[allow(missing_docs)]
+pub mod verif_bp {
+    use super::*;
+
+    pub fn byte_min_excess() -> &'static [i8; 256] {
+        &BYTE_MIN_EXCESS
+    }
+    pub fn byte_max_excess_rev() -> &'static [i8; 256] {
+        &BYTE_MAX_EXCESS_REV
+    }
+    pub fn byte_total_excess() -> &'static [i8; 256] {
+        &BYTE_TOTAL_EXCESS
+    }
+    pub fn byte_find_close() -> &'static [[u8; 16]; 256] {
+        &BYTE_FIND_CLOSE
+    }
+    pub fn word_min_excess_unrolled(word: u64) -> (i8, i16) {
+        super::word_min_excess_unrolled(word)
+    }
+    pub fn word_min_excess(word: u64, valid_bits: usize) -> (i8, i16) {
+        super::word_min_excess(word, valid_bits)
+    }
+    pub fn word_min_excess_i32(word: u64, valid_bits: usize) -> (i32, i32) {
+        super::word_min_excess_i32(word, valid_bits)
+    }
+    pub fn word_max_excess_rev(word: u64) -> (i32, i32) {
+        super::word_max_excess_rev(word)
+    }
+    pub fn find_close_in_word_fast(
+        word: u64,
+        start_bit: usize,
+        initial_excess: i32,
+        valid_bits: usize,
+    ) -> Option<usize> {
+        super::find_close_in_word_fast(word, start_bit, initial_excess, valid_bits)
+    }
+
+    /// SSE4.1 L1 builder; `None` when not compiled in (`simd` off) or SSE4.1 is missing.
+    #[allow(unused_variables)]
+    pub fn build_l1_index_sse41(
+        l0_min_excess: &[i8],
+        l0_word_excess: &[i16],
+        num_l1: usize,
+    ) -> Option<(Vec<i16>, Vec<i16>)> {
+        #[cfg(all(feature = "simd", target_arch = "x86_64"))]
+        {
+            if is_x86_feature_detected!("sse4.1") {
+                return Some(super::build_l1_index_sse41(l0_min_excess, l0_word_excess, num_l1));
+            }
+        }
+        None
+    }
+
+    /// SSE4.1 L2 builder; `None` when not compiled in (`simd` off) or SSE4.1 is missing.
+    #[allow(unused_variables)]
+    pub fn build_l2_index_sse41(
+        l1_min_excess: &[i16],
+        l1_block_excess: &[i16],
+        num_l2: usize,
+    ) -> Option<(Vec<i32>, Vec<i32>)> {
+        #[cfg(all(feature = "simd", target_arch = "x86_64"))]
+        {
+            if is_x86_feature_detected!("sse4.1") {
+                return Some(super::build_l2_index_sse41(l1_min_excess, l1_block_excess, num_l2));
+            }
+        }
+        None
+    }
+
+    /// The built index arrays of a `BalancedParens`.
+    pub struct IndexView<'a> {
+        pub total_ones: usize,
+        pub l0_min_excess: &'a [i8],
+        pub l0_word_excess: &'a [i16],
+        pub l1_min_excess: &'a [i16],
+        pub l1_block_excess: &'a [i16],
+        pub l2_min_excess: &'a [i32],
+        pub l2_block_excess: &'a [i32],
+        pub rank_l1: &'a [u32],
+        pub rank_l2: &'a [u64],
+    }
+
+    pub fn index_view<W: AsRef<[u64]>, S: SelectSupport>(bp: &BalancedParens<W, S>) -> IndexView<'_> {
+        IndexView {
+            total_ones: bp.total_ones,
+            l0_min_excess: &bp.l0_min_excess,
+            l0_word_excess: &bp.l0_word_excess,
+            l1_min_excess: &bp.l1_min_excess,
+            l1_block_excess: &bp.l1_block_excess,
+            l2_min_excess: &bp.l2_min_excess,
+            l2_block_excess: &bp.l2_block_excess,
+            rank_l1: &bp.rank_l1,
+            rank_l2: &bp.rank_l2,
+        }
+    }
+
+    /// CS-Poppy block samples and rate.
+    pub fn cspoppy_samples<W: AsRef<[u64]>>(bp: &BalancedParens<W, WithCsPoppy>) -> (&[u32], u32) {
+        (&bp.select.samples, bp.select.rate)
+    }
+
+    /// `find_close_from` with an arbitrary start position and initial excess.
+    pub fn find_close_from<W: AsRef<[u64]>, S: SelectSupport>(
+        bp: &BalancedParens<W, S>,
+        start_pos: usize,
+        initial_excess: i32,
+    ) -> Option<usize> {
+        bp.find_close_from(start_pos, initial_excess)
+    }
+}
+
 #[cfg(test)]
 mod tests {
     use super::*;
